@@ -10,6 +10,7 @@ pub mod c09;
 pub mod c10;
 pub mod c11;
 pub mod c12;
+pub mod c13;
 pub mod c14;
 pub mod c15;
 pub mod c16;
@@ -33,6 +34,7 @@ pub fn all() -> Vec<Box<dyn Property>> {
         Box::new(c10::C10),
         Box::new(c11::C11),
         Box::new(c12::C12),
+        Box::new(c13::C13),
         Box::new(c14::C14),
         Box::new(c15::C15),
         Box::new(c16::C16),
